@@ -230,6 +230,7 @@ def run(ctx: common.Run):
     if not ok:
         ctx.report_unproved('lean-build', f'{failing}', {'theorem_or_correspondence': failing})
         return
+    check_seeded_sampling(ctx, cirq)
     n = 160 if ctx.tier == 'quick' else 1500
     rng = ctx.substream('circuits')
     corpus = common.VERIF / 'corpus' / 'C02'
@@ -324,6 +325,28 @@ def run(ctx: common.Run):
                 if not np.allclose(before, after, atol=1e-9):
                     ctx.report_witness('sample:mutates', 'sampling a step result changed its state', {'lines': [{'circuit': repr(pre)}],
                                        'impl_out': [repr(after.tolist())], 'spec_out': [repr(before.tolist())], 'theorem_or_correspondence': 'sample_pure'})
+
+
+def check_seeded_sampling(ctx, cirq):
+    """sampling with an integer seed: independent qubits must not be sampled from one and the same stream (two columns of 64
+    fair coin flips coincide with probability 2^-64; the seeds are fixed, so the check is deterministic)"""
+    qs = cirq.LineQubit.range(3)
+    circuit = cirq.Circuit(cirq.H.on_each(*qs))
+    for name, mk in (('Simulator', lambda: cirq.Simulator(split_untangled_states=True)), ('DensityMatrixSimulator', lambda: cirq.DensityMatrixSimulator(split_untangled_states=True))):
+        step = None
+        for step in mk().simulate_moment_steps(circuit, qubit_order=qs):
+            pass
+        for seed in range(4):
+            smp = np.asarray(step.sample(list(qs), repetitions=64, seed=seed)).astype(int)
+            ctx.count('check', 'sample:int-seed')
+            ctx.case(['sample-int-seed', name, seed], True)
+            same = [(i, j) for i in range(3) for j in range(i + 1, 3) if (smp[:, i] == smp[:, j]).all() or (smp[:, i] == 1 - smp[:, j]).all()]
+            again = np.asarray(step.sample(list(qs), repetitions=64, seed=seed)).astype(int)
+            if same or not (again == smp).all():
+                ctx.report_witness(f'sample:int-seed:{name}', 'sampling independent qubits with an integer seed gives perfectly correlated columns (or is not reproducible)',
+                                   {'lines': [{'circuit': repr(circuit), 'seed': seed, 'simulator': name}], 'impl_out': [smp[:8].tolist(), same], 'spec_out': ['independent fair bits, reproducible for a fixed seed'],
+                                    'theorem_or_correspondence': 'Born-rule product distribution'})
+                break
 
 
 def replay(ctx, rep):
